@@ -40,6 +40,7 @@ fn main() {
         "links" => path::run_links(tier, seed, &mut out),
         "entscan" => lit::run_entscan(tier, seed, &mut out),
         "wxscan" => lit::run_wxscan(tier, seed, &mut out),
+        "wxscan_js" => lit::run_wxscan_js(tier, seed, &mut out),
         "determinism" => determinism::run(tier, seed, &mut out),
         "exprgen" => exprs::run_gen(tier, seed, &mut out),
         "exprval" => exprs::run_val(tier, seed, &mut out),
